@@ -36,6 +36,8 @@ type Exec struct {
 	fenv         *Env
 	canaries     bool
 	refHeaps     map[string]bool
+	addrBoxes    map[string]AddrV
+	noSafety     bool
 	canaryN      map[string]int
 }
 
